@@ -391,6 +391,8 @@ pub fn map_children(g: &G, f: &mut dyn FnMut(&G) -> G) -> G {
         SpanWith(a) => SpanWith(bx(a)),
         Mid(a) => Mid(bx(a)),
         Lazy(a) => Lazy(bx(a)),
+        Ext(a, o) => Ext(bx(a), *o),
+        CustomNest(a) => CustomNest(bx(a)),
         NestedDelims(a) => NestedDelims(bx(a)),
         WithCtx(c, a) => WithCtx(*c, bx(a)),
         MapCtx(a) => MapCtx(bx(a)),
@@ -503,13 +505,16 @@ pub fn explicit(g: &G) -> G {
         PaddedBy(a, p) => Mid(b(Group(Coll::Tuple, vec![(*p).clone(), *a, *p]))),
         Rep(a, bd, Sink::Bare) => MapUnit(b(Rep(a, bd, Sink::Vec))),
         SepBy(a, s, bd, l, t, Sink::Bare) => MapUnit(b(SepBy(a, s, bd, l, t, Sink::Vec))),
+        // a hand-written check path vs the default one (= parse and discard)
+        Ext(a, true) => Ext(a, false),
+        CustomNest(a) => Ext(a, false),
         o => o,
     }
 }
 
 pub fn has_elision(g: &G) -> bool {
     g.any_node(&|x| {
-        matches!(x, IgnoreThen(..) | ThenIgnore(..) | Ignored(_) | To(_) | ToSlice(_) | ToSpan(_) | DelimitedBy(..) | PaddedBy(..) | Rep(_, _, Sink::Bare) | SepBy(_, _, _, _, _, Sink::Bare))
+        matches!(x, IgnoreThen(..) | ThenIgnore(..) | Ignored(_) | To(_) | ToSlice(_) | ToSpan(_) | DelimitedBy(..) | PaddedBy(..) | Rep(_, _, Sink::Bare) | SepBy(_, _, _, _, _, Sink::Bare) | Ext(_, true) | CustomNest(_))
     })
 }
 
@@ -601,6 +606,8 @@ pub fn k_tot() -> Class {
         u1(|a| Some(Filter(a))),
         u1(|a| Some(OrNot(a))),
         u1(|a| if nn(&a) { Some(Rep(a, Bounds::new(0, Some(1)), Sink::Exactly(2))) } else { None }),
+        u1(|a| Some(Ext(a, true))),
+        u1(|a| Some(CustomNest(a))),
     ];
     let binary = vec![
         u2(|a, f| Some(Recover(a, f))),
